@@ -179,7 +179,7 @@ fn vp_native_settings_flow() {
 #[test]
 fn vp_native_settings_sequences() {
     #[derive(Clone, Debug, PartialEq)]
-    struct M { max_headers: usize, max_redirections: u32, follow: bool, compress: bool, headers: Vec<(String, String)> }
+    struct M { max_headers: usize, max_redirections: u32, follow: bool, compress: bool, timeout: Option<u64>, read_timeout: u64, invalid_certs: bool, headers: Vec<(String, String)> }
     impl M {
         fn set(&mut self, n: &str, v: &str) { let n = n.to_ascii_lowercase(); self.headers.retain(|(k, _)| *k != n); self.headers.push((n, v.to_string())); }
         fn append(&mut self, n: &str, v: &str) { self.headers.push((n.to_ascii_lowercase(), v.to_string())); }
@@ -187,16 +187,19 @@ fn vp_native_settings_sequences() {
     }
     #[derive(Clone, Copy, Debug)]
     enum Op { SMaxH(usize, usize), SFollow(usize, bool), SCompress(usize, bool), SMaxR(usize, u32), SHeader(usize, &'static str, &'static str), SAppend(usize, &'static str, &'static str),
-              SClone(usize), SGet(usize), BMaxH(usize), BFollow(bool), BCompress(bool), BMaxR(u32), BHeader(&'static str, &'static str), BAppend(&'static str, &'static str) }
+              SClone(usize), SGet(usize), BMaxH(usize), BFollow(bool), BCompress(bool), BMaxR(u32), BHeader(&'static str, &'static str), BAppend(&'static str, &'static str),
+              STimeout(usize, u64), SReadT(usize, u64), SCerts(usize, bool), BTimeout(u64), BCerts(bool) }
     use Op::*;
     let alphabet = [SMaxH(0, 7), SMaxH(1, 9), SFollow(0, false), SCompress(0, false), SCompress(1, false), SMaxR(0, 2), SHeader(0, "X-A", "s1"), SHeader(1, "x-a", "s2"),
                     SAppend(0, "X-A", "s3"), SAppend(0, "Accept", "text/x"), SAppend(1, "X-A", "s4"), SClone(0), SGet(0), SGet(1), BMaxH(3), BFollow(false), BCompress(false), BCompress(true), BMaxR(1),
-                    BHeader("x-a", "b1"), BAppend("X-A", "b2"), BHeader("User-Agent", "ua"), BAppend("accept", "b/acc")];
+                    BHeader("x-a", "b1"), BAppend("X-A", "b2"), BHeader("User-Agent", "ua"), BAppend("accept", "b/acc"),
+                    STimeout(0, 3), SReadT(1, 7), SCerts(0, true), BTimeout(1), BCerts(true)];
     let check = |what: &str, seq: &[Op], p: &PreparedRequest<body::Empty>, m: &M| {
         let vals = |n: &str| -> Vec<String> { p.headers().get_all(n).iter().map(|v| v.to_str().unwrap().to_string()).collect() };
         let ctx = format!("{} after {:?}", what, seq);
         assert_eq!((p.base_settings.max_headers, p.base_settings.max_redirections, p.base_settings.follow_redirects, p.base_settings.allow_compression),
                    (m.max_headers, m.max_redirections, m.follow, m.compress), "settings of {}", ctx);
+        assert_eq!((p.base_settings.timeout.map(|d| d.as_secs()), p.base_settings.read_timeout.as_secs(), p.base_settings.accept_invalid_certs), (m.timeout, m.read_timeout, m.invalid_certs), "timeouts / certificate flag of {}", ctx);
         assert_eq!(vals("x-a"), m.vals("x-a"), "X-A of {}", ctx);
         assert_eq!(vals("accept"), if m.vals("accept").is_empty() { vec!["*/*".to_string()] } else { m.vals("accept") }, "Accept of {}", ctx);
         if m.vals("user-agent").is_empty() { assert_eq!(vals("user-agent").len(), 1, "default User-Agent of {}", ctx); } else { assert_eq!(vals("user-agent"), m.vals("user-agent"), "User-Agent of {}", ctx); }
@@ -210,7 +213,7 @@ fn vp_native_settings_sequences() {
         for len in 1..=maxlen {
             if len < maxlen && idx[len..].iter().any(|&i| i != 0) { continue; }   // shorter sequences once
             let seq: Vec<Op> = idx[..len].iter().map(|&i| alphabet[i]).collect();
-            let base = M { max_headers: 100, max_redirections: 5, follow: true, compress: true, headers: vec![] };
+            let base = M { max_headers: 100, max_redirections: 5, follow: true, compress: true, timeout: None, read_timeout: 30, invalid_certs: false, headers: vec![] };
             let mut sessions: Vec<(crate::Session, M)> = vec![({ let mut s = crate::Session::new(); s.proxy_settings(crate::ProxySettings::builder().build()); s }, base.clone())];
             let mut builders: Vec<(Option<crate::RequestBuilder>, M)> = Vec::new();
             let mut valid = true;
@@ -224,6 +227,11 @@ fn vp_native_settings_sequences() {
                     SAppend(i, n, v) => { if let Some((s, m)) = sessions.get_mut(i) { s.header_append(n, v); m.append(n, v); } else { valid = false; } }
                     SClone(i) => { if sessions.len() < 2 { if let Some((s, m)) = sessions.get(i) { let c = (s.clone(), m.clone()); sessions.push(c); } else { valid = false; } } else { valid = false; } }
                     SGet(i) => { if let Some((s, m)) = sessions.get(i) { builders.push((Some(s.get("http://h.test/")), m.clone())); } else { valid = false; } }
+                    STimeout(i, v) => { if let Some((s, m)) = sessions.get_mut(i) { s.timeout(std::time::Duration::from_secs(v)); m.timeout = Some(v); } else { valid = false; } }
+                    SReadT(i, v) => { if let Some((s, m)) = sessions.get_mut(i) { s.read_timeout(std::time::Duration::from_secs(v)); m.read_timeout = v; } else { valid = false; } }
+                    SCerts(i, v) => { if let Some((s, m)) = sessions.get_mut(i) { s.danger_accept_invalid_certs(v); m.invalid_certs = v; } else { valid = false; } }
+                    BTimeout(v) => { if let Some((b, m)) = builders.last_mut() { *b = Some(b.take().unwrap().timeout(std::time::Duration::from_secs(v))); m.timeout = Some(v); } else { valid = false; } }
+                    BCerts(v) => { if let Some((b, m)) = builders.last_mut() { *b = Some(b.take().unwrap().danger_accept_invalid_certs(v)); m.invalid_certs = v; } else { valid = false; } }
                     BMaxH(v) => { if let Some((b, m)) = builders.last_mut() { *b = Some(b.take().unwrap().max_headers(v)); m.max_headers = v; } else { valid = false; } }
                     BFollow(v) => { if let Some((b, m)) = builders.last_mut() { *b = Some(b.take().unwrap().follow_redirects(v)); m.follow = v; } else { valid = false; } }
                     BCompress(v) => { if let Some((b, m)) = builders.last_mut() { *b = Some(b.take().unwrap().allow_compression(v)); m.compress = v; } else { valid = false; } }
